@@ -131,8 +131,12 @@ def chain_round(rep, r, tier):
                                                             w.nii_img.header))
                             full = None
                 except Exception as e:
+                    tag = 'chain:' + op
+                    if op == 'split' and isinstance(e, KeyError) and len(shape) >= 4 and shape[-1] == 1:
+                        # get_subset of an extension whose last axis is singleton but present (finding F23)
+                        tag = 'subset:chain-untrimmed/raise:KeyError'
                     rep.failure('chain step %s raised %r' % (hist[-1] if hist else op, e),
-                                {'tag': 'chain:' + op, 'suite': 'chain', 'case': case, 'history': hist})
+                                {'tag': tag, 'suite': 'chain', 'case': case, 'history': hist})
                     break
                 rep.nontriv([case, hist])
                 fs = CW.img_matches(w, full_affine=bool(full)) if full is not None else \
